@@ -862,6 +862,10 @@ def run(R):
     for f in fails:
         payload, msg, klass = f[0], f[1], f[2]
         known = classify_known(R, *f[3], msg, klass) if len(f) > 3 else None
+        if known is None and klass == "panic":
+            tail = (payload.get("pavexc_output_tail") or "") if isinstance(payload, dict) else ""
+            if "on an `Err` value: Conflict { with:" in tail and "analyses/user_components/router.rs" in tail:
+                known = next((x for x in R.known_findings() if x["id"] == "C07-router-template-lookup-panic"), None)
         classes[klass + (":known" if known else "")] = classes.get(klass + (":known" if known else ""), 0) + 1
         if known is not None:
             R.known_hit(known)
